@@ -75,6 +75,24 @@ def build(desc: Any, name: str, model: dict[str, Any]) -> Any:
             if matches(alt, name, model):
                 return build(alt, name, model)
         return build(desc.alts[0], name, model)
+    if isinstance(desc, dsl.DictOf):
+        import json as _json
+
+        class _TotalDict(dict):
+            """a dict that is defined on every key (the contract's `total` map): unlisted keys get the model's default"""
+            def __missing__(self, key: Any) -> Any:
+                return self.default
+
+            def __contains__(self, key: Any) -> bool:
+                return True
+        entries = _TotalDict() if desc.total else {}
+        prefix = name + "["
+        for key, value in model.items():
+            if key.startswith(prefix) and key.endswith("]") and not key.endswith("[]"):
+                entries[_json.loads(key[len(prefix):-1])] = value
+        if desc.total:
+            entries.default = model.get(f"{name}.default", 0)
+        return entries
     if isinstance(desc, dsl.SeqOf):
         items = []
         while has_keys(f"{name}[{len(items)}]", model):
